@@ -27,6 +27,9 @@ type modSpec struct {
 	genDirs    []string // where InitGenesis / ExportGenesis (and NewGenesisState) live
 }
 
+// accessNames[module]: the Go field names through which the module's code reaches its collections
+var accessNames = map[string][]string{}
+
 var mods = []modSpec{
 	{"evm", []string{"x/evm/keeper"}, []string{"x/evm"}, "", "x/evm", []string{"x/evm/evmmodule", "x/evm"}},
 	{"oracle", []string{"x/oracle/keeper"}, []string{"x/oracle/types"}, "", "x/oracle/types", []string{"x/oracle", "x/oracle/types"}},
@@ -58,8 +61,13 @@ func main() {
 			gfiles = append(gfiles, ParseDir(repo+"/"+d)...)
 		}
 		reads, writes := genesisUse(gfiles, fields)
-		modfacts = append(modfacts, fmt.Sprintf("  {| mf_module := %s; mf_genesis_fields := %s;\n     mf_init_reads := %s;\n     mf_export_writes := %s |}",
-			CoqString(m.name), coqStrs(fields), coqStrs(reads), coqStrs(writes)))
+		var kfiles []File
+		for _, d := range m.keeperDirs {
+			kfiles = append(kfiles, ParseDir(repo+"/"+d)...)
+		}
+		iw, er := collectionUse(append(kfiles, gfiles...), accessNames[m.name])
+		modfacts = append(modfacts, fmt.Sprintf("  {| mf_module := %s; mf_genesis_fields := %s;\n     mf_init_reads := %s;\n     mf_export_writes := %s;\n     mf_init_stores := %s;\n     mf_export_loads := %s |}",
+			CoqString(m.name), coqStrs(fields), coqStrs(reads), coqStrs(writes), coqStrs(iw), coqStrs(er)))
 	}
 	fmt.Println("Definition collections : list coll := [")
 	fmt.Println(strings.Join(colls, ";\n"))
@@ -177,7 +185,7 @@ func collections(mod string, files []File, consts map[string]int) []string {
 				}
 				return true
 			})
-			names := bindNames(fd.Body)
+			names, fieldNames := bindNames(fd.Body)
 			ast.Inspect(fd.Body, func(n ast.Node) bool {
 				call, ok := n.(*ast.CallExpr)
 				if !ok {
@@ -199,8 +207,18 @@ func collections(mod string, files []File, consts map[string]int) []string {
 					ns = 999 // unresolved namespace: not in the classification table
 				}
 				transient := strings.HasSuffix(ctor, "Transient")
+				name := names[call]
+				if !fieldNames[call] {
+					// built inside a helper (NewFunTokenState, NewTFDenomStore, …): the field the helper's result is stored in
+					if n := helperField(files, fd.Name.Name); n != "" {
+						name = n
+					}
+				}
+				if ctor != "NewMultiIndex" {
+					accessNames[mod] = append(accessNames[mod], name)
+				}
 				out = append(out, fmt.Sprintf("  {| cl_module := %s; cl_ctor := %s; cl_ns := %d; cl_transient := %s; cl_name := %s; cl_nsexpr := %s |}",
-					CoqString(mod), CoqString(ctor), ns, CoqBool(transient), CoqString(names[call]), CoqString(nsTxt)))
+					CoqString(mod), CoqString(ctor), ns, CoqBool(transient), CoqString(name), CoqString(nsTxt)))
 				return true
 			})
 		}
@@ -230,15 +248,18 @@ func ctorName(fun ast.Expr) string {
 	return ""
 }
 
-// bindNames: the Go name a constructor call is bound to (struct literal key, := target, return)
-func bindNames(body *ast.BlockStmt) map[*ast.CallExpr]string {
+// bindNames: the Go name a constructor call is bound to (struct literal key, := target); the second
+// map says whether that name is a struct field (literal key)
+func bindNames(body *ast.BlockStmt) (map[*ast.CallExpr]string, map[*ast.CallExpr]bool) {
 	m := map[*ast.CallExpr]string{}
+	isField := map[*ast.CallExpr]bool{}
 	ast.Inspect(body, func(n ast.Node) bool {
 		switch x := n.(type) {
 		case *ast.KeyValueExpr:
 			if c, ok := x.Value.(*ast.CallExpr); ok {
 				if id, ok := x.Key.(*ast.Ident); ok {
 					m[c] = id.Name
+					isField[c] = true
 				}
 			}
 		case *ast.AssignStmt:
@@ -250,7 +271,111 @@ func bindNames(body *ast.BlockStmt) map[*ast.CallExpr]string {
 		}
 		return true
 	})
-	return m
+	return m, isField
+}
+
+// helperField: `Field: helper(...)` somewhere in the package -> "Field"
+func helperField(files []File, helper string) string {
+	res := ""
+	for _, fl := range files {
+		ast.Inspect(fl.F, func(n ast.Node) bool {
+			kv, ok := n.(*ast.KeyValueExpr)
+			if !ok {
+				return true
+			}
+			c, ok := kv.Value.(*ast.CallExpr)
+			if !ok {
+				return true
+			}
+			fn := ""
+			switch f := c.Fun.(type) {
+			case *ast.Ident:
+				fn = f.Name
+			case *ast.SelectorExpr:
+				fn = f.Sel.Name
+			}
+			if fn == helper {
+				if id, ok := kv.Key.(*ast.Ident); ok {
+					res = id.Name
+				}
+			}
+			return true
+		})
+	}
+	return res
+}
+
+// collectionUse: which collections (by access name) InitGenesis STORES into and ExportGenesis LOADS from,
+// directly (`x.Name.Insert(…)`) or through functions of the module it calls (closure by function name).
+func collectionUse(files []File, names []string) (initStores, exportLoads []string) {
+	decls := map[string][]*ast.FuncDecl{}
+	var initFn, expFn *ast.FuncDecl
+	for _, fl := range files {
+		if strings.HasSuffix(fl.Path, ".pb.go") {
+			continue
+		}
+		for _, d := range fl.F.Decls {
+			fd, ok := d.(*ast.FuncDecl)
+			if !ok || fd.Body == nil {
+				continue
+			}
+			decls[fd.Name.Name] = append(decls[fd.Name.Name], fd)
+			better := func(cur *ast.FuncDecl) bool { return cur == nil || (cur.Recv != nil && fd.Recv == nil) }
+			if fd.Name.Name == "InitGenesis" && better(initFn) {
+				initFn = fd
+			}
+			if fd.Name.Name == "ExportGenesis" && better(expFn) {
+				expFn = fd
+			}
+		}
+	}
+	isName := map[string]bool{}
+	for _, n := range names {
+		isName[n] = true
+	}
+	stores := map[string]bool{"Insert": true, "Set": true, "SafeInsert": true, "Next": true}
+	loads := map[string]bool{"Get": true, "GetOr": true, "Iterate": true, "Peek": true, "Has": true, "Collect": true}
+	var walk func(fd *ast.FuncDecl, kinds map[string]bool, seen map[*ast.FuncDecl]bool, out map[string]bool)
+	walk = func(fd *ast.FuncDecl, kinds map[string]bool, seen map[*ast.FuncDecl]bool, out map[string]bool) {
+		if fd == nil || seen[fd] {
+			return
+		}
+		seen[fd] = true
+		ast.Inspect(fd.Body, func(n ast.Node) bool {
+			c, ok := n.(*ast.CallExpr)
+			if !ok {
+				return true
+			}
+			switch f := c.Fun.(type) {
+			case *ast.SelectorExpr:
+				if inner, ok := f.X.(*ast.SelectorExpr); ok && isName[inner.Sel.Name] && kinds[f.Sel.Name] {
+					out[inner.Sel.Name] = true
+				}
+				for _, callee := range decls[f.Sel.Name] {
+					if callee.Name.Name != "InitGenesis" && callee.Name.Name != "ExportGenesis" {
+						walk(callee, kinds, seen, out)
+					}
+				}
+			case *ast.Ident:
+				for _, callee := range decls[f.Name] {
+					walk(callee, kinds, seen, out)
+				}
+			}
+			return true
+		})
+	}
+	is, el := map[string]bool{}, map[string]bool{}
+	walk(initFn, stores, map[*ast.FuncDecl]bool{}, is)
+	walk(expFn, loads, map[*ast.FuncDecl]bool{}, el)
+	for k := range is {
+		initStores = append(initStores, k)
+	}
+	for k := range el {
+		exportLoads = append(exportLoads, k)
+	}
+	sort.Strings(initStores)
+	sort.Strings(exportLoads)
+	return
 }
 
 // ---------------------------------------------------------------- genesis fields and their use
